@@ -11,7 +11,7 @@ t = time.time()
 p = subprocess.run(["bash", "-c", f"ulimit -v 4000000; /verif/build/target/{profile}/bsverif {engine} {seed} {n} {os.environ.get('VERIF_TIER','quick')}"], capture_output=True, text=True)
 cases = [json.loads(l) for l in p.stdout.split("\n") if l.startswith("{")]
 print("cases", len(cases), "harness rc", p.returncode, "t=%.1f" % (time.time() - t), p.stderr[-300:])
-res, errs = coqeval.evaluate(engine, "try", cases, funcs=funcs)
+res, errs = coqeval.evaluate(engine, "try", cases, funcs=funcs, shard=int(os.environ.get("SHARD","400")))
 print({k: len(v) for k, v in res.items()}, "errors", len(errs), "t=%.1f" % (time.time() - t))
 for e in errs[:2]:
     print(e["err"][-800:])
